@@ -687,9 +687,11 @@ FIXED_CASES = [
      "    l: List[List[int]] = field(default_factory=list, metadata=field_options(serialize=_fl))\n",
      "Fo", ["Fo(1, 2, 3, 4, 5, [6])", "Fo(1, 2, 3, 4, 5, [], [[7]])"]),
     ("nested generic, same type variable",
+     # (one specialisation per generic class: with all_refs two specialisations of one class would share a definition)
      "T = TypeVar('T')\n@dataclass\nclass Gi(DataClassDictMixin, Generic[T]):\n    f: List[T]\n"
-     "@dataclass\nclass Go(DataClassDictMixin, Generic[T]):\n    x: T\n    inner: Gi[datetime.date]\n    many: List[Gi[str]]\n    same: Gi[int]\n",
-     "Go[int]", ["Go(1, Gi([datetime.date(2020, 1, 1)]), [Gi(['a'])], Gi([2]))", "Go(1, Gi([]), [], Gi([]))"]),
+     "@dataclass\nclass Gj(DataClassDictMixin, Generic[T]):\n    g: Optional[T]\n"
+     "@dataclass\nclass Go(DataClassDictMixin, Generic[T]):\n    x: T\n    inner: Gi[datetime.date]\n    many: List[Gj[str]]\n",
+     "Go[int]", ["Go(1, Gi([datetime.date(2020, 1, 1)]), [Gj('a'), Gj(None)])", "Go(1, Gi([]), [])"]),
     ("annotated generic field",
      "T = TypeVar('T')\n@dataclass\nclass Ga(DataClassDictMixin, Generic[T]):\n    f: List[T]\n"
      "@dataclass\nclass Ha(DataClassDictMixin):\n    x: Annotated[Ga[int], 'n']\n", "Ha", ["Ha(Ga([1]))"]),
@@ -884,7 +886,7 @@ def model_part(ctx: vlib.Ctx):
                                               "C06_nt_mode_schema", "C06_nt_mode_pack",
                                               "C06_typevar_required_follows_binding"], kernels=["K6", "K6N"])
     r = ctx.rng
-    want = ctx.budget(150, 1000)
+    want = ctx.budget(150, 800)
     a_cases, b_cases, c_cases, a_descr, b_descr, c_descr = [], [], [], [], [], []
     c_src = []
     patterns = set()
@@ -1290,7 +1292,7 @@ def run(ctx: vlib.Ctx):
     fixed_part(ctx)
     if not ctx.quick():
         coqchk_part(ctx)
-    n = oracle(ctx, ctx.budget(250, 2000), 4)
+    n = oracle(ctx, ctx.budget(250, 1600), 4)
     ctx.notes.append(f"oracle validations: {n}")
 
 
